@@ -209,6 +209,7 @@ type vRun struct {
 	base    uint64   // first media sequence number of a real segment
 	obs     []*vStreamObs
 	k       int
+	sawTiny bool // native replay only: a frame duration below half a second was written
 }
 
 type vHist struct {
@@ -223,6 +224,7 @@ type vStreamObs struct {
 	tracks    []int // ghost track indexes carried by this stream, in fragment-id order
 	hist      map[int]*vHist
 	bodies    map[string][]byte
+	owner     map[string]int
 	lastMSN   int
 	lastTD    int
 	seen      bool
@@ -288,8 +290,9 @@ func verifSetup() *vRun {
 	if variant == MuxerVariantLowLatency {
 		r.base = 7
 	}
+	verifFreezePartDuration(r.m)
 	if variant == MuxerVariantMPEGTS {
-		so := &vStreamObs{id: "main", hist: map[int]*vHist{}, bodies: map[string][]byte{}}
+		so := &vStreamObs{id: "main", hist: map[int]*vHist{}, bodies: map[string][]byte{}, owner: map[string]int{}}
 		for i, t := range g.tracks {
 			t.stream, t.idInStr = 0, i+1
 			so.tracks = append(so.tracks, i)
@@ -302,7 +305,7 @@ func verifSetup() *vRun {
 				id = "video" + strconv.Itoa(i+1)
 			}
 			t.stream, t.idInStr = i, 1
-			r.obs = append(r.obs, &vStreamObs{id: id, tracks: []int{i}, hist: map[int]*vHist{}, bodies: map[string][]byte{}})
+			r.obs = append(r.obs, &vStreamObs{id: id, tracks: []int{i}, hist: map[int]*vHist{}, bodies: map[string][]byte{}, owner: map[string]int{}})
 		}
 	}
 	for _, so := range r.obs {
@@ -311,6 +314,18 @@ func verifSetup() *vRun {
 		so.taken = make([]int, len(so.tracks))
 	}
 	return r
+}
+
+// verifFreezePartDuration (FREEZEPART=1, Low-Latency): the part-duration threshold is an arbitrary value
+// in [PartMinDuration, 5 s] fixed for the whole run (the segmenter is told it is frozen), instead of the
+// result of findCompatiblePartDuration (C19's subject). Unlike the stub, this is honoured by the native
+// replay too. Only meaningful without parameter changes (they un-freeze it).
+func verifFreezePartDuration(m *Muxer) {
+	if m.Variant != MuxerVariantLowLatency || verifParam("FREEZEPART", 0) == 0 {
+		return
+	}
+	m.segmenter.fmp4AdjustedPartDuration = time.Duration(verifRangeI64("partThreshold", int64(m.PartMinDuration), int64(5*time.Second)))
+	m.segmenter.fmp4FreezeAdjustedPartDuration = true
 }
 
 var verifDirectoryName string
@@ -377,7 +392,10 @@ func (r *vRun) writeVideo(ti int) {
 		dts = verifRangeI64("vdts0", -900000, 1<<33)
 	} else {
 		d := verifRangeI64("vdelta", 0, 1<<21)
-		verifPrefer(d >= 1) // replayability: the real playlist parser rejects zero-length segments
+		verifPrefer(d >= 45000) // replayability: the real playlist parser rejects zero-length segments / zero targets
+		if !verifSymbolic() && d < 45000 {
+			r.sawTiny = true
+		}
 		dts = t.lastDTS + d
 	}
 	t.lastDTS, t.hasDTS = dts, true
@@ -630,6 +648,11 @@ func (r *vRun) observe() {
 		verifLog("playlist code/err/nsegs", w.code, err, len(pl.Segments))
 		verifAssert("C15", "served-playlist-parses", err == nil)
 		if err != nil {
+			// (native build only: symbolically the text layer is bypassed) a served playlist the library's own
+			// decoder rejects cannot be observed further; that is a failure of whatever is being checked, except
+			// when the input contains frame durations below half a second (zero-length segments or parts and a zero
+			// TARGETDURATION / PART-TARGET are then possible, which the decoder rejects: documented limitation)
+			verifAssert("*", "served-playlist-accepted-by-own-decoder", r.sawTiny)
 			continue
 		}
 		r.checkPlaylist(si, so, &pl)
@@ -827,8 +850,12 @@ func (r *vRun) fetchAll(si int, so *vStreamObs, pl *playlist.Media) {
 		wantCT = "video/MP2T"
 	}
 	listed := map[string]bool{}
+	owner := 0 // media sequence number of the segment the URI being fetched belongs to
 	fetch := func(uri string) []byte {
 		listed[uri] = true
+		if _, ok := so.owner[uri]; !ok {
+			so.owner[uri] = owner
+		}
 		w := verifGet(r.m, uri)
 		verifAssert("C05", "listed-uri-200", w.code == 200)
 		verifAssert("C05", "listed-uri-content-type", w.code != 200 || verifContentType(w) == wantCT)
@@ -853,6 +880,7 @@ func (r *vRun) fetchAll(si int, so *vStreamObs, pl *playlist.Media) {
 		if seg.Gap {
 			continue
 		}
+		owner = pl.MediaSequence + i
 		body := fetch(seg.URI)
 		ord := pl.MediaSequence + i - int(r.base)
 		verifLog("segment uri/ord/decoded/len", seg.URI, ord, so.decoded, len(body))
@@ -870,13 +898,15 @@ func (r *vRun) fetchAll(si int, so *vStreamObs, pl *playlist.Media) {
 			so.decoded++
 		}
 	}
+	owner = pl.MediaSequence + len(pl.Segments)
 	for _, p := range pl.Parts {
 		pb := fetch(p.URI)
 		r.checkPartBody(pb, verifNumberAfter(p.URI, "_part"))
 	}
-	// URIs that left the window, and an unknown one, must not return media bytes
+	// URIs whose segment has left the window, and an unknown one, must not return media bytes
+	// (parts of older segments that are still in the window are no longer listed but may stay fetchable)
 	for uri := range so.bodies {
-		if !listed[uri] {
+		if !listed[uri] && so.owner[uri] < pl.MediaSequence {
 			w := verifGet(r.m, uri)
 			verifAssert("C05", "expired-uri-not-served", w.code != 200 && len(w.body) == 0)
 			verifAssert("C18", "expired-uri-unregistered", w.code != 200 && len(w.body) == 0)
